@@ -196,6 +196,33 @@ func (r *runner) step(o Op) Res {
 		r.stateClosed = true
 		L.Close()
 		return Res{T: "true"}
+	case "stdwrite":
+		// buffered bytes on the process's stderr: they have to arrive by the end of the state
+		std := L.GetField(r.ioTab, "stderr")
+		if _, err := r.call(L.GetField(std, "setvbuf"), std, lua.LString("full")); err != nil {
+			return Res{T: "raise"}
+		}
+		args := []lua.LValue{std}
+		for _, s := range o.Strs {
+			args = append(args, lua.LString(string(decode(s))))
+		}
+		vals, err := r.call(L.GetField(std, "write"), args...)
+		return shape("write", vals, err)
+	case "devfull":
+		// a close whose final flush fails: nil, message, errno; the descriptor is given back
+		vals, err := r.call(r.ioOpen, lua.LString("/dev/full"), lua.LString("w"))
+		if err != nil || len(vals) != 1 {
+			return Res{T: "weird", Note: "cannot open /dev/full"}
+		}
+		f := vals[0]
+		r.call(L.GetField(f, "setvbuf"), f, lua.LString("full"))
+		r.call(L.GetField(f, "write"), f, lua.LString("some data"))
+		vals, err = r.call(L.GetField(f, "close"), f)
+		res := shape("close", vals, err)
+		if n := fdsOn("/dev/full"); n != 0 {
+			return Res{T: "weird", Note: fmt.Sprintf("%d descriptor(s) on /dev/full still open after close", n)}
+		}
+		return res
 	case "stdclose":
 		std := L.GetField(r.ioTab, o.Which)
 		vals, err := r.call(L.GetField(std, "close"), std)
@@ -368,7 +395,10 @@ func needsChild(in Input) bool {
 				return true
 			}
 		}
-		if o.T == "stdclose" { // a close that is not refused takes the process's own descriptors
+		if o.T == "setvbuf" && o.Size != nil && *o.Size >= childCount { // a size that is allocated at once
+			return true
+		}
+		if o.T == "stdclose" || o.T == "stdwrite" { // a close that is not refused takes the process's own descriptors
 			return true
 		}
 	}
@@ -405,6 +435,22 @@ func executeSafe(in Input) ([]Res, string) {
 	}
 	var obs []Res
 	if err == nil && json.Unmarshal(out.Bytes(), &obs) == nil && len(obs) == len(in.Ops) {
+		// what the history wrote to the (buffered) standard error has arrived when the state is gone
+		var want []byte
+		for _, o := range in.Ops {
+			if o.T == "stdwrite" {
+				for _, s := range o.Strs {
+					want = append(want, decode(s)...)
+				}
+			}
+		}
+		if want != nil && !bytes.Equal(errb.Bytes(), want) {
+			got := errb.String()
+			if len(got) > 80 {
+				got = got[:80]
+			}
+			return obs, fmt.Sprintf("bytes buffered on io.stderr were lost at the end of the state: %d expected, got %q", len(want), got)
+		}
 		return obs, ""
 	}
 	msg := errb.String()
@@ -419,6 +465,17 @@ func executeSafe(in Input) ([]Res, string) {
 		obs[i] = Res{T: "weird", Note: "child died"}
 	}
 	return obs, fmt.Sprintf("the process running the history died (%v): %s", err, msg)
+}
+
+func fdsOn(target string) int {
+	es, _ := os.ReadDir("/proc/self/fd")
+	n := 0
+	for _, e := range es {
+		if l, err := os.Readlink("/proc/self/fd/" + e.Name()); err == nil && l == target {
+			n++
+		}
+	}
+	return n
 }
 
 func hasSeq(b []byte, x, y byte) bool {
